@@ -1,14 +1,15 @@
 /-
   C03 — known devices live exactly as long as max-age and byebye allow.
 
-  Property theorems only (helper lemmas: `Lemmas/C03Tracker.lean`, `Lemmas/C03Judge.lean`).  The model
+  Property theorems only (helper lemmas: `Lemmas/C03Tracker.lean`, `Lemmas/C03Judge.lean`, `Lemmas/C03Step.lean`).  The model
   (`Model/C03Tracker.lean`) transcribes `SsdpDeviceTracker` / `SsdpDevice` / the `SsdpListener` callbacks; `step`
   is the function the correspondence driver runs, `C03.ok` (`Spec/C03.lean`) is the judge the driver evaluates on
   the implementation's device maps.  All theorems are for an arbitrary string type, arbitrary `ipv` / `skip`
   functions, **every** list of events and arbitrary integer timestamps (equal, increasing or going backwards).
   `Ev.wf` is what the receive path guarantees about a message (see `Msg.wf`).
 -/
-import Upnp.Lemmas.C03Judge
+import Upnp.Lemmas.C03Present
+import Upnp.Lemmas.C03Parse
 import Upnp.Spec.C03Cfg
 namespace Upnp.C03
 open Upnp PyDict
@@ -61,201 +62,6 @@ theorem purge_exact (evs : List (Ev σ)) (now : Int) (u : σ) :
   exact ⟨fun d h hv => purge_get?_kept now u d h (by omega),
          fun d h hv => purge_get?_expired hi now u d h (by omega),
          fun h => purge_get?_none now u h⟩
-
-/-! ### one step satisfies the judge -/
-
-theorem wf_not_sighting_of_invalid (m : Msg σ) (hw : m.wf = true)
-    (h : (m.kind = .search ∧ m.validSearch = false) ∨ (m.kind ≠ .search ∧ m.validAdv = false)) :
-    m.sighting? = none := by
-  unfold Msg.sighting?
-  split
-  · rfl
-  · cases hu : m.udn <;> cases ht : m.ty <;> cases hl : m.loc <;> simp
-    rename_i u ty loc
-    cases hlo : m.locOk with
-    | false => rfl
-    | true =>
-    exfalso
-    simp only [Msg.wf, hu, Option.isNone_some, Bool.false_or, Bool.and_eq_true, decide_eq_true_eq, Bool.or_eq_true] at hw
-    rcases h with ⟨_, h⟩ | ⟨hk, h⟩
-    · simp [Msg.validSearch, hw.1.1, ht, hl, hlo] at h
-    · have hn : m.ntsOk = true := by rcases hw.1.2 with h' | h'; exact absurd h' hk; exact h'
-      simp [Msg.validAdv, hw.1.1, ht, hl, hlo, hn] at h
-
-/-- the transitions of a search response / alive / update, as seen by the judge -/
-theorem sight_step_ok (le : σ → σ → Bool) {s : Tracker σ} {sp : Sp σ} (hi : Inv s) (hr : Rel sp s) (m : Msg σ)
-    (hw : m.wf = true) (hk : m.kind ≠ .byebye) (s' : Tracker σ)
-    (H : (s' = s ∧ m.sighting? = none) ∨ (s' = purge s m.ts ∧ m.sighting? = none) ∨
-      ∃ u loc d nl d', seeDevice ipv s m = ((seeDevice ipv s m).1, some (u, d, nl)) ∧ m.sighting? = some (u, loc) ∧
-        d'.validTo = d.validTo ∧ d'.locs = d.locs ∧
-        s' = ⟨set (seeDevice ipv s m).1.devices u d', (seeDevice ipv s m).1.next⟩) :
-    Inv s' ∧ Rel (specStep sp (.msg m)) s' ∧
-    stepOk (specStep sp (.msg m)) (.msg m) (snapOf le s) (snapOf le s') = true := by
-  have hbye : m.byebye? = none := by simp [Msg.byebye?, hk]
-  rcases H with ⟨hs, hsi⟩ | ⟨hs, hsi⟩ | ⟨u, loc, d, nl, d', hsd, hsi, hv, hl, hs⟩
-  · rw [hs]
-    have hr' : Rel (specStep sp (.msg m)) s := by simp only [specStep, hsi, hbye]; exact rel_tick hr _
-    refine ⟨hi, hr', ?_⟩
-    simp only [stepOk, hsi, hbye, Bool.and_eq_true]
-    exact ⟨present_ok le hi hr', inert_same le hi⟩
-  · rw [hs]
-    have hi' := inv_purge hi m.ts
-    have hr' : Rel (specStep sp (.msg m)) (purge s m.ts) := by
-      simp only [specStep, hsi, hbye]; exact rel_tick_purge hi hr _
-    refine ⟨hi', hr', ?_⟩
-    simp only [stepOk, hsi, hbye, Bool.and_eq_true]
-    exact ⟨present_ok le hi' hr', inert_purge le hi m.ts⟩
-  · obtain ⟨loc', hu, hloc, hd, _, hsd1⟩ := seeDevice_dev ipv s m _ u d nl hsd
-    have hisd := inv_seeDevice ipv hi m
-    have hdv : d.validTo = m.ts + m.maxAge := by rw [hd, (sighted_props _ _ _ _).1, refreshed_validTo]
-    have hget : get? (seeDevice ipv s m).1.devices u = some d := by rw [hsd1]; simp [get?_set_self]
-    have hrsd : Rel (specStep sp (.msg m)) (seeDevice ipv s m).1 := by
-      simp only [specStep, hsi, Ev.time]
-      rw [hsd1, ← hdv]
-      exact rel_sight (rel_tick_purge hi hr m.ts) u d _
-    rw [hs]
-    refine ⟨inv_restore hisd u d d' hget hv hl, rel_restore hrsd u d d' _ hget hv, ?_⟩
-    rw [snapOf_restore le _ u d d' _ hget hv hl]
-    simp only [stepOk, hsi, Bool.and_eq_true]
-    refine ⟨present_ok le hisd hrsd, expired_gone_of le hisd hrsd m.ts ?_⟩
-    intro k x hx
-    rw [hsd1] at hx
-    simp only [get?_set] at hx
-    by_cases e : u = k
-    · simp only [e, if_true, Option.some.injEq] at hx
-      subst hx
-      have : 0 ≤ m.maxAge := by simp [Msg.wf] at hw; exact hw.2
-      omega
-    · simp only [e, if_false] at hx
-      obtain ⟨x0, _, h2, h3⟩ := purge_get?_inv hi m.ts k x hx
-      rw [h3.1]; omega
-
-theorem sighting_of_valid (m : Msg σ) (hk : m.kind ≠ .byebye) (u loc ty : σ)
-    (hu : m.udn = some u) (hl : m.loc = some loc) (ht : m.ty = some ty) (hlo : m.locOk = true) :
-    m.sighting? = some (u, loc) := by
-  simp [Msg.sighting?, hk, hu, hl, ht, hlo]
-
-theorem search_cases (s : Tracker σ) (m : Msg σ) (hw : m.wf = true) (hk : m.kind = .search) :
-    ((seeSearch ipv skip s m).1 = s ∧ m.sighting? = none) ∨
-    ((seeSearch ipv skip s m).1 = purge s m.ts ∧ m.sighting? = none) ∨
-      ∃ u loc d nl d', seeDevice ipv s m = ((seeDevice ipv s m).1, some (u, d, nl)) ∧ m.sighting? = some (u, loc) ∧
-        d'.validTo = d.validTo ∧ d'.locs = d.locs ∧
-        (seeSearch ipv skip s m).1 = ⟨set (seeDevice ipv s m).1.devices u d', (seeDevice ipv s m).1.next⟩ := by
-  by_cases hv : m.validSearch = true
-  · have hv' := hv
-    simp only [Msg.validSearch, Bool.and_eq_true, Option.isSome_iff_exists] at hv'
-    obtain ⟨⟨⟨_, ⟨ty, hty⟩⟩, ⟨loc, hloc⟩⟩, hlo⟩ := hv'
-    cases hu : m.udn with
-    | none =>
-      right; left
-      refine ⟨?_, by simp [Msg.sighting?, hu]⟩
-      simp [seeSearch, hv, seeDevice_none ipv s m (Or.inl hu)]
-    | some u =>
-      right; right
-      have hsd := seeDevice_some ipv s m u loc hu hloc
-      obtain ⟨d, hd⟩ : ∃ d, d = sighted (refreshed (purge s m.ts) u (m.ts + m.maxAge)) loc (m.ts + m.maxAge) m.ts :=
-        ⟨_, rfl⟩
-      rw [← hd] at hsd
-      refine ⟨u, loc, d, _, { d with search := set d.search ty m.hdrs }, by rw [hsd],
-        sighting_of_valid m (by simp [hk]) u loc ty hu hloc hty hlo, rfl, rfl, ?_⟩
-      simp only [seeSearch, hv, Bool.not_true, Bool.false_eq_true, if_false, hsd, hty]
-  · left
-    have hv2 : m.validSearch = false := by simpa using hv
-    exact ⟨by simp [seeSearch, hv2], wf_not_sighting_of_invalid m hw (Or.inl ⟨hk, hv2⟩)⟩
-
-theorem adv_cases (s : Tracker σ) (m : Msg σ) (hw : m.wf = true) (hk : m.kind = .alive ∨ m.kind = .update) :
-    ((seeAdv ipv skip s m).1 = s ∧ m.sighting? = none) ∨
-    ((seeAdv ipv skip s m).1 = purge s m.ts ∧ m.sighting? = none) ∨
-      ∃ u loc d nl d', seeDevice ipv s m = ((seeDevice ipv s m).1, some (u, d, nl)) ∧ m.sighting? = some (u, loc) ∧
-        d'.validTo = d.validTo ∧ d'.locs = d.locs ∧
-        (seeAdv ipv skip s m).1 = ⟨set (seeDevice ipv s m).1.devices u d', (seeDevice ipv s m).1.next⟩ := by
-  have hnb : m.kind ≠ .byebye := by rcases hk with h | h <;> simp [h]
-  have hns : m.kind ≠ .search := by rcases hk with h | h <;> simp [h]
-  by_cases hv : m.validAdv = true
-  · have hv' := hv
-    simp only [Msg.validAdv, Bool.and_eq_true, Option.isSome_iff_exists] at hv'
-    obtain ⟨⟨⟨⟨_, ⟨ty, hty⟩⟩, _⟩, ⟨loc, hloc⟩⟩, hlo⟩ := hv'
-    cases hu : m.udn with
-    | none =>
-      right; left
-      refine ⟨?_, by simp [Msg.sighting?, hu]⟩
-      simp [seeAdv, hv, seeDevice_none ipv s m (Or.inl hu)]
-    | some u =>
-      right; right
-      have hsd := seeDevice_some ipv s m u loc hu hloc
-      obtain ⟨d, hd⟩ : ∃ d, d = sighted (refreshed (purge s m.ts) u (m.ts + m.maxAge)) loc (m.ts + m.maxAge) m.ts :=
-        ⟨_, rfl⟩
-      rw [← hd] at hsd
-      refine ⟨u, loc, d, _, { d with adv := set d.adv ty m.hdrs }, by rw [hsd],
-        sighting_of_valid m hnb u loc ty hu hloc hty hlo, rfl, rfl, ?_⟩
-      simp only [seeAdv, hv, Bool.not_true, Bool.false_eq_true, if_false, hsd, hty]
-  · left
-    have hv2 : m.validAdv = false := by simpa using hv
-    exact ⟨by simp [seeAdv, hv2], wf_not_sighting_of_invalid m hw (Or.inr ⟨hns, hv2⟩)⟩
-
-theorem erase_of_get?_none {κ ν : Type} [DecidableEq κ] (d : PyDict κ ν) (k : κ) (h : get? d k = none) :
-    erase d k = d := by
-  induction d with
-  | nil => rfl
-  | cons p r ih =>
-    obtain ⟨k', v⟩ := p
-    by_cases e : k' = k
-    · simp [get?, e] at h
-    · simp [get?, e] at h; simp [erase, e, ih h]
-
-theorem byebye_step_ok (le : σ → σ → Bool) {s : Tracker σ} {sp : Sp σ} (hi : Inv s) (hr : Rel sp s) (m : Msg σ)
-    (hw : m.wf = true) (hk : m.kind = .byebye) :
-    Inv (unsee s m).1 ∧ Rel (specStep sp (.msg m)) (unsee s m).1 ∧
-    stepOk (specStep sp (.msg m)) (.msg m) (snapOf le s) (snapOf le (unsee s m).1) = true := by
-  have hsi : m.sighting? = none := by simp [Msg.sighting?, hk]
-  have inert : m.byebye? = none → (unsee s m).1 = s →
-      Inv (unsee s m).1 ∧ Rel (specStep sp (.msg m)) (unsee s m).1 ∧
-      stepOk (specStep sp (.msg m)) (.msg m) (snapOf le s) (snapOf le (unsee s m).1) = true := by
-    intro hb hs
-    rw [hs]
-    have hr' : Rel (specStep sp (.msg m)) s := by simp only [specStep, hsi, hb]; exact rel_tick hr _
-    refine ⟨hi, hr', ?_⟩
-    simp only [stepOk, hsi, hb, Bool.and_eq_true]
-    exact ⟨present_ok le hi hr', inert_same le hi⟩
-  cases hu : m.udn with
-  | none => exact inert (by simp [Msg.byebye?, hu]) (by unfold unsee; simp [hu])
-  | some u =>
-    cases hty : m.ty with
-    | none =>
-      exact inert (by simp [Msg.byebye?, hu, hty]) (by unfold unsee; simp [hu, hty])
-    | some ty =>
-      have hb : m.byebye? = some u := by simp [Msg.byebye?, hk, hu, hty]
-      have hvalid : m.validByebye = true := by
-        simp only [Msg.wf, hu, hk, Option.isNone_some, Bool.false_or, Bool.and_eq_true, decide_eq_true_eq,
-          Bool.or_eq_true] at hw
-        have hn : m.ntsOk = true := by
-          rcases hw.1.2 with h' | h'
-          · cases h'
-          · exact h'
-        simp [Msg.validByebye, hw.1.1, hty, hn]
-      cases hg : get? s.devices u with
-      | none =>
-        have hs : (unsee s m).1 = s := by simp [unsee, hvalid, hu, hty, hg]
-        rw [hs]
-        have hr' : Rel (specStep sp (.msg m)) s := by
-          simp only [specStep, hsi, hb]
-          have := rel_erase hi (rel_tick hr (Ev.time (.msg m))) u s.next
-          rw [erase_of_get?_none _ _ hg] at this
-          exact this
-        refine ⟨hi, hr', ?_⟩
-        simp only [stepOk, hsi, hb, Bool.and_eq_true]
-        exact ⟨present_ok le hi hr', byebye_ok_unknown le hi u hg⟩
-      | some d =>
-        have hs : (unsee s m).1 = ⟨erase s.devices u, s.next⟩ := by simp [unsee, hvalid, hu, hty, hg]
-        rw [hs]
-        have hi' := inv_erase hi u
-        have hr' : Rel (specStep sp (.msg m)) ⟨erase s.devices u, s.next⟩ := by
-          simp only [specStep, hsi, hb]
-          exact rel_erase hi (rel_tick hr _) u s.next
-        refine ⟨hi', hr', ?_⟩
-        simp only [stepOk, hsi, hb, Bool.and_eq_true]
-        exact ⟨present_ok le hi' hr', byebye_ok_erase le hi u s.next⟩
-
 /-- **Every step of the model satisfies the judge's step relation** and keeps the invariants. -/
 theorem step_ok (le : σ → σ → Bool) {s : Tracker σ} {sp : Sp σ} (hi : Inv s) (hr : Rel sp s) (e : Ev σ)
     (hw : e.wf = true) :
@@ -326,6 +132,56 @@ example :
   decide
 
 /-! ### the clauses of the property, stated directly on the model -/
+
+/-- **present_within_max_age** — take any history `pre ++ [m] ++ post` in which `m` is a valid sighting of `u`
+    (time `m.ts`, max-age `m.maxAge`, location `loc`) and is the last event naming `u` (no byebye for `u` and no
+    further valid sighting of `u` in `post`), and every later event that runs the purge (a sighting of another device,
+    an invalid search / alive / update, an explicit purge) carries a time `≤ m.ts + m.maxAge`.  Then after the whole
+    history `u` is known, its `valid_to` is `m.ts + m.maxAge`, `loc` is among its locations (valid as long) and so
+    `location` is not `None`.  Any number of other devices, any timestamps before `m`, equal or backward timestamps
+    after it. -/
+theorem present_within_max_age (pre post : List (Ev σ)) (m : Msg σ) (u loc : σ)
+    (hm : m.sighting? = some (u, loc)) (hwm : m.wf = true)
+    (hpost : ∀ e ∈ post, e.wf = true ∧ (e.purges = true → e.time ≤ m.ts + m.maxAge) ∧ e.names u = false) :
+    ∃ d, get? (final ipv skip {} (pre ++ .msg m :: post)).devices u = some d ∧
+      d.validTo = m.ts + m.maxAge ∧ get? d.locs loc = some (m.ts + m.maxAge) ∧
+      ∀ le : σ → σ → Bool, (location le d).isSome = true := by
+  have hfin : final ipv skip {} (pre ++ .msg m :: post) =
+      final ipv skip (step ipv skip (final ipv skip {} pre) (.msg m)).1 post := by
+    simp [final, List.foldl_append]
+  rw [hfin]
+  have hi0 := inv_step ipv skip (watermark_inv ipv skip pre) (.msg m)
+  have hp0 := present_sight ipv skip (watermark_inv ipv skip pre) m hwm u loc hm
+  suffices H : ∀ s : Tracker σ, Inv s → Present s u loc (m.ts + m.maxAge) →
+      Present (final ipv skip s post) u loc (m.ts + m.maxAge) by
+    obtain ⟨d, h1, h2, h3⟩ := H _ hi0 hp0
+    exact ⟨d, h1, h2, h3, fun le => location_isSome le d loc _ h3⟩
+  clear hfin hi0 hp0
+  induction post with
+  | nil => intro s _ hp; exact hp
+  | cons e r ih =>
+    intro s hi hp
+    obtain ⟨hw, ht, hn⟩ := hpost e List.mem_cons_self
+    exact ih (fun x hx => hpost x (List.mem_cons_of_mem _ hx)) _ (inv_step ipv skip hi e)
+      (present_step ipv skip hi hp e hw ht hn)
+
+/-- non-vacuity of `present_within_max_age`: device 1 is sighted at 10 with max-age 5 after an earlier life; later
+    come a sighting of device 2 at 12, a purge at 15 (= validity, equal timestamps), a byebye of device 2 stamped 99
+    (byebyes do not purge), an invalid message at 14 (time going backwards); the hypotheses hold and device 1 is
+    still there, while one more purge at 16 (hypothesis violated) removes it -/
+example :
+    let ipv : Nat → Option Nat := fun _ => some 4
+    let skip : Nat → Bool := fun _ => false
+    let mk (kind : Kind) (ts : Int) (u loc : Nat) (age : Int) (ok : Bool) : Ev Nat :=
+      .msg { kind := kind, ts := ts, udnHdr := some u, udn := some u, ty := some 1, ntsOk := true,
+             loc := some loc, locOk := ok, maxAge := age, hdrs := [] }
+    let pre := [mk .search 0 1 50 1 true, .purge 3]
+    let post := [mk .alive 12 2 60 100 true, .purge 15, mk .byebye 99 2 60 0 true, mk .search 14 1 70 5 false]
+    (∀ e ∈ post, e.wf = true ∧ (e.purges = true → e.time ≤ 10 + 5) ∧ e.names 1 = false) ∧
+    ((final ipv skip {} (pre ++ mk .update 10 1 50 5 true :: post)).devices.map fun p => (p.1, p.2.validTo, p.2.locs))
+      = [(1, 15, [(50, 15)])] ∧
+    ((final ipv skip {} (pre ++ mk .update 10 1 50 5 true :: (post ++ [.purge 16]))).devices.map fun p => p.1) = [] := by
+  decide
 
 /-- **expired_gone** — in every reachable state, processing a valid sighting or an explicit purge at time `t`
     leaves no device whose validity ended before `t`. -/
@@ -435,5 +291,177 @@ theorem invalid_inert (s : Tracker σ) (m : Msg σ) (hw : m.wf = true)
     simp only [Msg.byebye?, hk, if_true] at hb
     unfold unsee
     cases hu : m.udn <;> cases hty : m.ty <;> simp [hu, hty] at hb ⊢
+
+/-- **invalid_inert_raw** — `invalid_inert` stated on the headers the listener receives (`pairs` = the items of the
+    decoded header map handed to `_on_data` of the search (`sockA = false`) or advertisement (`sockA = true`)
+    listener), through the whole model (dispatch, `udn_from_usn`, the location test, the tracker): a packet that is
+    not a byebye and whose USN is missing / empty / not `uuid:…`, or whose ST (NT) is missing or empty, or whose
+    LOCATION is missing, empty, does not start with `http` or contains a loopback / link-local needle
+    (`Parse.locOk_needle`, `Parse.locOk_prefix`), never creates or refreshes a device: the tracker is unchanged or
+    merely purged at the packet's timestamp.  (`hudn`: `_udn` is the udn of a uuid USN — `decode_ssdp_packet`.) -/
+theorem invalid_inert_raw (cfg : Cfg) (sockA : Bool) (pairs : List (String × String)) (s : Tracker String)
+    (hudn : (Parse.RawOp.pkt sockA pairs).decoded)
+    (hnb : Parse.hget (C16.SMap.writeAll Parse.lower [] pairs) "nts" ≠ some "ssdp:byebye")
+    (hbad : (Parse.truthy (get? (C16.SMap.writeAll Parse.lower [] pairs) "usn")).bind Parse.udnFromUsn = none ∨
+      Parse.truthy (get? (C16.SMap.writeAll Parse.lower [] pairs) (if sockA then "nt" else "st")) = none ∨
+      (match Parse.truthy (get? (C16.SMap.writeAll Parse.lower [] pairs) "location") with
+       | none => True
+       | some l => (if sockA then Parse.locOk cfg.advPrefix cfg.advNeedles l
+                    else Parse.locOk cfg.searchPrefix cfg.searchNeedles l) = false)) :
+    (step Parse.ipVersion (Parse.skipHdr cfg) s (Parse.parseEv cfg sockA pairs)).1 = s ∨
+    (step Parse.ipVersion (Parse.skipHdr cfg) s (Parse.parseEv cfg sockA pairs)).1 =
+      purge s (Parse.parseEv cfg sockA pairs).time := by
+  have hw := Parse.parseEv_wf cfg sockA pairs hudn
+  rcases Parse.parseEv_cases cfg sockA pairs with ⟨ts, he⟩ | ⟨kind, v, he, hk1, hk2, hk3, _⟩
+  · rw [he]; exact Or.inl rfl
+  · rw [he] at hw ⊢
+    simp only [Ev.wf] at hw
+    have hkb : kind ≠ .byebye := fun e => hnb (hk3 e)
+    have hkey : (if (kind == Kind.search) = true then "st" else "nt") = (if sockA = true then "nt" else "st") := by
+      cases sockA with
+      | true => have := hk2 rfl; cases kind <;> simp_all
+      | false => have := hk1 rfl; subst this; simp
+    have hsi : (Parse.mkMsg cfg kind (C16.SMap.write Parse.lower (C16.SMap.writeAll Parse.lower [] pairs) "_source" v)).sighting? = none := by
+      unfold Msg.sighting?
+      simp only [Parse.mkMsg, hkb, if_false, Parse.get?_write_source _ _ "usn" (by decide),
+        Parse.get?_write_source _ _ "location" (by decide)]
+      rw [hkey, Parse.get?_write_source _ _ _ (by cases sockA <;> decide)]
+      rcases hbad with h | h | h
+      · rw [h]
+      · rw [h]; split <;> simp_all
+      · cases hl : Parse.truthy (get? (C16.SMap.writeAll Parse.lower [] pairs) "location") with
+        | none => split <;> simp_all
+        | some l =>
+          rw [hl] at h
+          simp only at h
+          have : (if (kind == Kind.search) = true then Parse.locOk cfg.searchPrefix cfg.searchNeedles l
+                  else Parse.locOk cfg.advPrefix cfg.advNeedles l) = false := by
+            cases sockA with
+            | true => have := hk2 rfl; cases kind <;> simp_all
+            | false => have := hk1 rfl; subst this; simpa using h
+          split <;> simp_all
+    have hb : (Parse.mkMsg cfg kind (C16.SMap.write Parse.lower (C16.SMap.writeAll Parse.lower [] pairs) "_source" v)).byebye? = none := by
+      simp [Msg.byebye?, Parse.mkMsg, hkb]
+    exact invalid_inert Parse.ipVersion (Parse.skipHdr cfg) s _ hw hsi hb
+
+/-- **c03_history_raw** — the history theorem with the model starting at the headers the listener receives: for every
+    list of decoded packets (either socket, any headers) and explicit purges, `C03.ok` holds on the trace of the
+    full model (dispatch + string layer + tracker), for every configuration of the constants. -/
+theorem c03_history_raw (cfg : Cfg) (le : String → String → Bool) (ops : List Parse.RawOp)
+    (h : ∀ o ∈ ops, o.decoded) :
+    ok (traceOf Parse.ipVersion (Parse.skipHdr cfg) le {} (ops.map (Parse.RawOp.ev cfg))) = true := by
+  apply c03_history
+  intro e he
+  obtain ⟨o, ho, rfl⟩ := List.mem_map.mp he
+  exact Parse.RawOp.ev_wf cfg o (h o ho)
+
+/-! ### the string layer, at the constants of the property text -/
+
+/-- **max_age_value** — `CACHE-CONTROL: max-age=<n>` announces `n` seconds (any `n`, no bound) -/
+theorem max_age_value (n : Nat) :
+    Parse.maxAgeUs specCfg (String.ofList ("max-age=".toList ++ Parse.dec n)) = (n : Int) * 1000000 :=
+  Parse.maxAgeUs_plain specCfg n
+
+/-- **max_age_default** — a cache-control value in which the regex cannot match (no `m` / `M` at all, e.g. absent,
+    empty, `no-cache`) announces 900 s -/
+theorem max_age_default (cc : String) (h : ∀ c ∈ cc.toList, Parse.lowerC c ≠ 'm') :
+    Parse.maxAgeUs specCfg cc = 900 * 1000000 := by
+  rw [Parse.maxAgeUs_default specCfg cc (Parse.maxAgeSearch_none _ h)]; rfl
+
+/-- **loopback_rejected** — a location containing `://127.0.0.1`, `://[::1]` or `://169.254` anywhere is not acceptable,
+    for search responses and advertisements alike; nor is one that does not start with `http` -/
+theorem loopback_rejected (n : String) (hn : n ∈ ["://127.0.0.1", "://[::1]", "://169.254"]) (a b : List Char) :
+    Parse.locOk specCfg.searchPrefix specCfg.searchNeedles (String.ofList (a ++ (n.toList ++ b))) = false ∧
+    Parse.locOk specCfg.advPrefix specCfg.advNeedles (String.ofList (a ++ (n.toList ++ b))) = false :=
+  ⟨Parse.locOk_needle _ _ n hn a b, Parse.locOk_needle _ _ n hn a b⟩
+
+/-- **valid_search_raw** — end to end from the raw headers: a packet on the search socket that is not an M-SEARCH echo,
+    has no NTS, whose USN names the device `u` (`udn_from_usn`), with a non-empty ST and an acceptable LOCATION `loc`,
+    processed in any state satisfying the invariant, leaves `u` known with
+    `valid_to = _timestamp + max-age(cache-control)` and `loc` among its locations. -/
+theorem valid_search_raw (cfg : Cfg) (pairs : List (String × String)) (s : Tracker String) (hi : Inv s)
+    (hudn : (Parse.RawOp.pkt false pairs).decoded) (usn u ty loc : String)
+    (hman : Parse.hget (C16.SMap.writeAll Parse.lower [] pairs) "man" ≠ some Parse.ssdpDiscover)
+    (hnts : Parse.truthy (get? (C16.SMap.writeAll Parse.lower [] pairs) "nts") = none)
+    (husn : Parse.truthy (get? (C16.SMap.writeAll Parse.lower [] pairs) "usn") = some usn)
+    (hu : Parse.udnFromUsn usn = some u)
+    (hst : Parse.truthy (get? (C16.SMap.writeAll Parse.lower [] pairs) "st") = some ty)
+    (hloc : Parse.truthy (get? (C16.SMap.writeAll Parse.lower [] pairs) "location") = some loc)
+    (hok : Parse.locOk cfg.searchPrefix cfg.searchNeedles loc = true) :
+    Present (step Parse.ipVersion (Parse.skipHdr cfg) s (Parse.parseEv cfg false pairs)).1 u loc
+      (Parse.tsOf (C16.SMap.writeAll Parse.lower [] pairs) +
+        Parse.maxAgeUs cfg ((Parse.hget (C16.SMap.writeAll Parse.lower [] pairs) "cache-control").getD "")) := by
+  have hw := Parse.parseEv_wf cfg false pairs hudn
+  have he : Parse.parseEv cfg false pairs =
+      .msg (Parse.mkMsg cfg .search (C16.SMap.write Parse.lower (C16.SMap.writeAll Parse.lower [] pairs) "_source" "search")) := by
+    unfold Parse.parseEv
+    have : (Parse.hget (C16.SMap.writeAll Parse.lower [] pairs) "man" == some Parse.ssdpDiscover) = false := by
+      rw [beq_eq_false_iff_ne]; exact hman
+    simp [this, hnts]
+  rw [he] at hw ⊢
+  simp only [Ev.wf] at hw
+  have hsi : (Parse.mkMsg cfg .search (C16.SMap.write Parse.lower (C16.SMap.writeAll Parse.lower [] pairs) "_source" "search")).sighting?
+      = some (u, loc) := by
+    simp [Msg.sighting?, Parse.mkMsg, Parse.get?_write_source _ _ "usn" (by decide),
+      Parse.get?_write_source _ _ "location" (by decide), Parse.get?_write_source _ _ "st" (by decide),
+      husn, hu, hst, hloc, hok]
+  have := present_sight Parse.ipVersion (Parse.skipHdr cfg) hi _ hw u loc hsi
+  simpa [Parse.mkMsg, Parse.tsOf, Parse.hget, Parse.get?_write_source _ _ "_timestamp" (by decide),
+    Parse.get?_write_source _ _ "cache-control" (by decide)] using this
+
+/-- **byebye_exact_raw** — end to end from the raw headers: a packet on the advertisement socket with `NTS: ssdp:byebye`
+    (not an M-SEARCH echo), whose USN names the device `u` and which has a non-empty NT, removes `u` and only `u` from
+    the map of any reachable state, touching nothing else (no purge, watermark unchanged). -/
+theorem byebye_exact_raw (cfg : Cfg) (ops : List Parse.RawOp) (pairs : List (String × String))
+    (hudn : (Parse.RawOp.pkt true pairs).decoded) (usn u ty : String)
+    (hman : Parse.hget (C16.SMap.writeAll Parse.lower [] pairs) "man" ≠ some Parse.ssdpDiscover)
+    (hnts : Parse.hget (C16.SMap.writeAll Parse.lower [] pairs) "nts" = some "ssdp:byebye")
+    (husn : Parse.truthy (get? (C16.SMap.writeAll Parse.lower [] pairs) "usn") = some usn)
+    (hu : Parse.udnFromUsn usn = some u)
+    (hnt : Parse.truthy (get? (C16.SMap.writeAll Parse.lower [] pairs) "nt") = some ty) :
+    let s := final Parse.ipVersion (Parse.skipHdr cfg) {} (ops.map (Parse.RawOp.ev cfg))
+    (step Parse.ipVersion (Parse.skipHdr cfg) s (Parse.parseEv cfg true pairs)).1 = ⟨erase s.devices u, s.next⟩ := by
+  intro s
+  have hw := Parse.parseEv_wf cfg true pairs hudn
+  have he : Parse.parseEv cfg true pairs =
+      .msg (Parse.mkMsg cfg .byebye (C16.SMap.write Parse.lower (C16.SMap.writeAll Parse.lower [] pairs) "_source" "advertisement")) := by
+    unfold Parse.parseEv
+    have : (Parse.hget (C16.SMap.writeAll Parse.lower [] pairs) "man" == some Parse.ssdpDiscover) = false := by
+      rw [beq_eq_false_iff_ne]; exact hman
+    have h1 : ("ssdp:byebye" == "ssdp:alive") = false := by decide
+    simp [this, hnts, h1]
+  rw [he] at hw ⊢
+  simp only [Ev.wf] at hw
+  have hb : (Parse.mkMsg cfg .byebye (C16.SMap.write Parse.lower (C16.SMap.writeAll Parse.lower [] pairs) "_source" "advertisement")).byebye?
+      = some u := by
+    simp [Msg.byebye?, Parse.mkMsg, Parse.get?_write_source _ _ "usn" (by decide),
+      Parse.get?_write_source _ _ "nt" (by decide), husn, hu, hnt]
+  exact (byebye_exact Parse.ipVersion (Parse.skipHdr cfg) (ops.map (Parse.RawOp.ev cfg)) _ hw u hb).1
+
+/-- non-vacuity of `valid_search_raw` / `invalid_inert_raw`: a concrete decoded search response satisfies every
+    hypothesis (device `uuid:a`, max-age 5 s), and the same packet with a loopback location satisfies `hbad` -/
+example :
+    let prs : List (String × String) :=
+      [("CACHE-CONTROL", "max-age=5"), ("LOCATION", "http://192.168.1.10/d"), ("ST", "upnp:rootdevice"),
+       ("USN", "uuid:a::upnp:rootdevice"), ("_udn", "uuid:a"), ("_timestamp", "1000000")]
+    let h := C16.SMap.writeAll Parse.lower [] prs
+    (Parse.RawOp.pkt false prs).decoded ∧
+    Parse.hget h "man" ≠ some Parse.ssdpDiscover ∧ Parse.truthy (get? h "nts") = none ∧
+    Parse.truthy (get? h "usn") = some "uuid:a::upnp:rootdevice" ∧
+    Parse.udnFromUsn "uuid:a::upnp:rootdevice" = some "uuid:a" ∧
+    Parse.truthy (get? h "st") = some "upnp:rootdevice" ∧
+    Parse.truthy (get? h "location") = some "http://192.168.1.10/d" ∧
+    Parse.locOk specCfg.searchPrefix specCfg.searchNeedles "http://192.168.1.10/d" = true ∧
+    Parse.maxAgeUs specCfg ((Parse.hget h "cache-control").getD "") = 5000000 ∧
+    Parse.locOk specCfg.searchPrefix specCfg.searchNeedles "http://127.0.0.1:80/d" = false := by
+  refine ⟨?_, by decide, by decide, by decide, by decide, by decide, by decide, by decide, by decide, by decide⟩
+  intro u hu
+  have h1 : (Parse.truthy (get? (C16.SMap.writeAll Parse.lower []
+      [("CACHE-CONTROL", "max-age=5"), ("LOCATION", "http://192.168.1.10/d"), ("ST", "upnp:rootdevice"),
+       ("USN", "uuid:a::upnp:rootdevice"), ("_udn", "uuid:a"), ("_timestamp", "1000000")]) "usn")).bind
+      Parse.udnFromUsn = some "uuid:a" := by decide
+  rw [h1] at hu
+  cases hu
+  decide
 
 end Upnp.C03
